@@ -179,6 +179,9 @@ def gen_calls(rng, case, n_calls):
             call["order"] = rng.perm(len(obs["items"]))
         if obs["k"] == "discrete" and b is None:
             call["pyint"] = rng.chance(0.3)
+        if obs["k"] == "dict" and b is None:
+            # Discrete entries of a single Dict observation given as plain python ints (seeded change C11-j)
+            call["pyint"] = rng.chance(0.35)
         if algo == "DQN":
             call["explore"] = (not call["det"]) and rng.chance(0.6)
             if call["explore"]:
@@ -637,7 +640,7 @@ def make_obs(case, call):
         for j in order:
             key = keys[j]
             leaf, rows = truth[key]
-            o[key] = rows_to_input(leaf, rows, b, call.get("layout"))
+            o[key] = rows_to_input(leaf, rows, b, call.get("layout"), bool(call.get("pyint")) and leaf["k"] == "discrete")
         return o, truth
     leaf, rows = truth[None]
     return rows_to_input(leaf, rows, b, call.get("layout"), call.get("pyint", False)), truth
@@ -663,6 +666,11 @@ def obs_unchanged(o, snap):
             return False
         for k, v in o.items():
             ref, cp = snap[k]
+            if not isinstance(ref, np.ndarray):
+                # a plain python value (int for a Discrete entry): same object / same value
+                if type(v) is not type(ref) or v != ref:
+                    return False
+                continue
             if v is not ref or v.shape != cp.shape or v.dtype != cp.dtype or v.tobytes() != cp.tobytes():
                 return False
         return True
